@@ -163,7 +163,7 @@ def compile_all(res, w, entries, label):
                 continue
             codes, first = classify(m1)
             d = dict(es[k][1])
-            d["rustc"] = m1[-1500:]
+            d["rustc"] = m1[:3000]
             # one module can show several independent defects: one violation per error code, so that
             # each is matched (or not) on its own
             for code in codes.split("+"):
